@@ -559,3 +559,123 @@ func (c *Ctx) checkPrototypes(br *BR) {
 		c.undecided("C01-PROTO", "GoStructRegistry", "prototypes", token.NoPos, "no factory returning an empty prototype found (the selector types confirmed by reading)")
 	}
 }
+
+// C01-NILFIELD: a field that the type's own code believes can be nil.
+//
+// When some routine tests a pointer field of a struct against nil, its author
+// believed the field can be nil for values of that type that are in
+// circulation (a Prompter made without a terminal has no line editor). A
+// method of the same type that hands the field to a method call as the
+// receiver, or reads through it, with no such test of its own contradicts that
+// belief: one of the two is wrong (Engler et al.: a checked and an unchecked
+// use of the same thing). Outside the recover barrier the unchecked use is a
+// nil-pointer panic out of the library, for the values the test exists for.
+//
+// Sites: in functions reachable outside the barrier, a load of field F of T
+// (F of pointer type, nil-tested somewhere in the package) used as the
+// receiver of a call into another package, or as the base of a field access,
+// where no comparison of a load of the same field with nil guards the use in
+// that function. Constructors that set the field from a fresh non-nil value
+// before using it are not sites (the use is of the fresh value, not of a load).
+func (c *Ctx) checkNilFields(br *BR) {
+	type fkey struct {
+		fld *types.Var
+	}
+	tested := map[*types.Var][]token.Pos{}
+	isFieldLoad := func(v ssa.Value) *types.Var {
+		u, ok := v.(*ssa.UnOp)
+		if !ok || u.Op != token.MUL {
+			return nil
+		}
+		fa, ok := u.X.(*ssa.FieldAddr)
+		if !ok {
+			return nil
+		}
+		fld := faField(fa)
+		if fld == nil {
+			return nil
+		}
+		if _, isPtr := fld.Type().Underlying().(*types.Pointer); !isPtr {
+			return nil
+		}
+		return fld
+	}
+	for _, f := range c.zygoFuncs() {
+		eachInstr(f, func(b *ssa.BasicBlock, i int, in ssa.Instruction) {
+			bo, ok := in.(*ssa.BinOp)
+			if !ok || (bo.Op != token.EQL && bo.Op != token.NEQ) || !isNilConst(bo.Y) {
+				return
+			}
+			if fld := isFieldLoad(bo.X); fld != nil && fld.Pkg() != nil && fld.Pkg().Path() == zygoPath {
+				tested[fld] = append(tested[fld], bo.Pos())
+			}
+		})
+	}
+	n := 0
+	for _, f := range c.zygoFuncs() {
+		if !br.unprotected(f) {
+			continue
+		}
+		eachInstr(f, func(b *ssa.BasicBlock, i int, in ssa.Instruction) {
+			call, ok := in.(ssa.CallInstruction)
+			if !ok || call.Common().IsInvoke() {
+				return
+			}
+			g := call.Common().StaticCallee()
+			if g == nil || g.Signature.Recv() == nil || len(call.Common().Args) == 0 {
+				return
+			}
+			// a method of another package called on the field: it cannot be expected to accept a nil receiver
+			if fnPkgPath(g) == zygoPath {
+				return
+			}
+			fld := isFieldLoad(call.Common().Args[0])
+			if fld == nil || len(tested[fld]) == 0 {
+				return
+			}
+			// a struct built in this very function, its field set from a fresh value: not a value "in circulation"
+			if u, ok := call.Common().Args[0].(*ssa.UnOp); ok {
+				if fa, ok := u.X.(*ssa.FieldAddr); ok {
+					if _, local := fa.X.(*ssa.Alloc); local {
+						return
+					}
+				}
+			}
+			n++
+			guarded := guardedBy(b, func(cond ssa.Value) (bool, bool) {
+				bo, ok := cond.(*ssa.BinOp)
+				if !ok || (bo.Op != token.EQL && bo.Op != token.NEQ) || !isNilConst(bo.Y) {
+					return false, false
+				}
+				if isFieldLoad(bo.X) != fld {
+					return false, false
+				}
+				return true, bo.Op == token.NEQ
+			})
+			// or: the function returns early when the field is nil
+			if !guarded {
+				for _, blk := range f.Blocks {
+					cond, t, e := condBranch(blk)
+					bo, ok := cond.(*ssa.BinOp)
+					if !ok || (bo.Op != token.EQL && bo.Op != token.NEQ) || !isNilConst(bo.Y) || isFieldLoad(bo.X) != fld {
+						continue
+					}
+					nilSide := t
+					if bo.Op == token.NEQ {
+						nilSide = e
+					}
+					if blk.Dominates(b) && !blockReaches(nilSide, b) && nilSide != b {
+						guarded = true
+					}
+				}
+			}
+			o := c.check(guarded, "C01-NILFIELD", fnName(f), "call of "+shortStr(calleeName(call.Common()), 40)+" on the field "+fld.Name(), in.Pos(),
+				"the field is compared with nil before it is used as a receiver",
+				"the field "+fld.Name()+" is tested against nil elsewhere in the package ("+c.pos(tested[fld][0])+"), so values with a nil "+fld.Name()+" are in circulation, and here it is handed to a method of another package as the receiver with no test: a nil-pointer panic out of the library, outside the recover barrier")
+			if o.Status == StViolation {
+				o.Path = br.unprot.pathTo(c, f)
+			}
+		})
+	}
+	c.note("C01-NILFIELD sites", n)
+}
